@@ -96,6 +96,10 @@ SessionVerdict(x) ==
                 [] x.clause = "C06.prefix" -> C06Prefix(n, c[1], c[2])
                 [] x.clause = "C06.fault" -> C06Fault(n, c[1], c[2])
                 [] x.clause = "C12.equiv" -> C12Equiv(c[1], c[2])
+                [] x.clause = "C17.pure" -> C17Same(c[1], c[2])
+                [] x.clause = "C17.entry" -> C17Entry(c[1], c[2])
+                [] x.clause = "C17.offset" -> C17Offset(n, c[1], c[2])
+                [] x.clause = "C17.frozen" -> C17Frozen(x.x)
                 [] x.clause = "C16.history" -> C16History(c[1], x.x)
                 [] x.clause = "C16.eager-equal" -> C12Equiv(c[1], c[2])
                 [] x.clause = "C04.equiv" -> C04Equiv(n, c[1], c[2])
